@@ -163,6 +163,11 @@ class SInt(Sym):
     def isinstance_(self, ctx, types):
         return int in types
 
+    def getattr(self, ctx, name):
+        if name == '__index__':
+            return lambda ctx: self
+        raise Unsupported('attribute %s of int' % name)
+
     def binop(self, ctx, op, other, reflected):
         if isinstance(other, float) and not is_extfloat(other):
             return SReal(z3.ToReal(self.v)).binop(ctx, op, other, reflected)
